@@ -3,4 +3,5 @@ import txobs
 META = {'bounds': 'local obligations from every list shape of <= 3 slots (induction on API calls); concrete histories of 1-3 request/response pairs', 'outside': 'N > 3 in one query; line/header parsing abstract in histories',
         'assumptions': ['as C05'], 'trusted_base': ['harness/tx/pairing.c', 'harness/tx/hist.c ghost request/response tags']}
 def obligations(tier):
-    return txobs.pairing('quick') + txobs.hist_all(tier, 'quick')
+    import streamobs as so
+    return txobs.pairing('quick') + txobs.hist_all(tier, 'quick') + [o for o in txobs.complete_all('quick') if 'response_complete_ex' in o.name] + [so.res_step(4, n=4), so.res_step(1, n=4)]
